@@ -1,7 +1,10 @@
 """C08 — sequence ring and receive-window bookkeeping.
 Correspondence units: seq_arith, bf_ops, hdr_acks, consts (regenerated kernels AND spec side vs
 the real SeqNum / BitField / ConnectionBase._handle_ack_bits / Packet.setMTU).
-Oracle: the property restated over the implementation only (independent of the model)."""
+Oracle: the property restated over the implementation only (independent of the model).
+conn_level / conn_level_messages: the header-ack clause and the message-window clause on real endpoint pairs
+(every message type, retransmitted fragmented messages under lost acks); their endpoint histories are also replayed
+on the Conn.v model (unit conn_run_seq, through harness/props/C04.py Stream.finish)."""
 import itertools
 from harness import lib
 
@@ -209,6 +212,7 @@ def run(run):
 
     oracle(run)
     conn_level(run)
+    conn_level_messages(run)
 
 
 def conn_level(run):
@@ -283,6 +287,153 @@ def conn_level(run):
             finally:
                 st.finish()
     run.count("conn_level_sessions", nsess)
+    logging.disable(logging.NOTSET)
+
+
+class RefReassembly:
+    """what the application must be handed when exactly the messages NOT flagged duplicate are processed
+    (written from the protocol description, independent of the code): APP messages as they are; APP_FRAGMENT
+    messages collected per fragment id and handed over when all indices 1..count are present, the collection
+    being forgotten then (and, as the implementation documents, when older than 1 s + 0.5 s per fragment)"""
+
+    def __init__(self):
+        self.frags = {}
+
+    def feed(self, now, typ, payload):
+        import struct
+        out = []
+        if typ == 6:
+            out.append(bytes(payload))
+        elif typ == 7 and len(payload) >= 6:
+            fid, idx, cnt = struct.unpack(">HHH", payload[:6])
+            r = self.frags.setdefault(fid, {"count": cnt, "ctime": now, "got": {}})
+            if 1 <= idx <= r["count"] and idx not in r["got"]:
+                r["got"][idx] = bytes(payload[6:])
+            if len(r["got"]) == r["count"]:
+                out.append(b"".join(r["got"][i] for i in range(1, r["count"] + 1)))
+                del self.frags[fid]
+            for k in [k for k, v in self.frags.items() if now - v["ctime"] > T_TICKS + (T_TICKS // 2) * v["count"]]:
+                del self.frags[k]
+        return out
+
+
+T_TICKS = 15360
+
+
+def conn_level_messages(run):
+    """the clause about MESSAGES, on real endpoints, for every message type an established connection carries
+    (APP, APP_FRAGMENT; keep-alive datagrams carry no message): "a ... message is flagged duplicate exactly when it
+    was already received inside the window" (256 message numbers).  Real UdpClient / ServerClientConnection pairs
+    (harness/props/C04.py Stream), message counters started at 0 and next to the wrap; single-datagram and
+    FRAGMENTED messages in all retry modes; the receiver's acks are blocked for stretches, so that BEST_EFFORT /
+    guaranteed messages and the fragments of fragmented ones are RETRANSMITTED in fresh datagrams (same message
+    numbers, new datagram numbers); datagrams are also lost, duplicated and delivered late.  A ghost window over the
+    TRUE message indices (kept here, independent of BitField) says which message copies are duplicates.  After every
+    accepted datagram:
+      (a) the receiver's message window (BitField.contains over the newest 256+ numbers) names exactly the message
+          indices received inside the window — whatever their type;
+      (b) what the application is handed equals what a reference reassembly produces from exactly the messages the
+          ghost does NOT flag (a flagged copy has no effect at all; an unflagged message is processed)."""
+    import logging, collections
+    from harness.props import C04 as P4
+    from mpgameserver.connection import SeqNum
+    logging.disable(logging.CRITICAL)
+    rng = run.rng
+    starts = [(0, 0), (RING - 20, RING - 40), (RING - 300, RING - 3)]
+    nsess = 0
+    nviol = 0
+    site = "ConnectionBase._recv_message / BitField.insert"
+
+    def check(st, ref, idx, why, step):
+        nonlocal nviol
+        conn = st.net.ep(st.receiver).impl.conn
+        n = st.true_n(idx)
+        dgram_dup = st.gp.flagged(n)
+        msgs = st.msg_of[idx]
+        pre = [(j, ty, p, st.gm.flagged(j)) for (j, ty, p) in msgs]
+        before = dict(st.count)
+        now = st.net.t
+        acc = st.deliver(idx, why)
+        got = collections.Counter()
+        for p, c in st.count.items():
+            if c - before.get(p, 0):
+                got[p] = c - before.get(p, 0)
+        run.evaluations += 1
+        base = {"direction": "%s->%s" % (st.sender, st.receiver), "start": list(st.start), "step": step, "copy": why,
+                "datagram_index": n,
+                "messages": [[j, ty, len(p), "flagged" if f else "new"] for (j, ty, p, f) in pre][:8]}
+        want = collections.Counter()
+        if acc and not dgram_dup:
+            for (j, ty, p, f) in pre:
+                if not f:
+                    for x in ref.feed(now, ty, p):
+                        want[x] += 1
+                if f:
+                    run.nt(("msg-dup", st.sender, st.start, ty, min(st.gm.gap(j) or 0, 300), why))
+        if got != want and nviol < 6:
+            nviol += 1
+            extra, missing = got - want, want - got
+            run.oracle_violation(
+                "message-flagged-duplicate-was-processed-again" if extra else "message-not-flagged-was-not-processed",
+                dict(base, handed_to_application=[[bytes(p[:12]), len(p), c] for p, c in list(got.items())[:4]],
+                     expected=[[bytes(p[:12]), len(p), c] for p, c in list(want.items())[:4]],
+                     fragmented=any(ty == 7 for (_, ty, _, _) in pre)), site)
+        if acc and st.gm.newest is not None and not getattr(st, "window_reported", False):
+            m = st.gm.newest
+            for q in range(max(1, m - 260), m + 3):
+                expect = st.gm.flagged(q)
+                has = bool(conn.bitfield_msg.contains(SeqNum(wire(q))))
+                if has != expect:
+                    st.window_reported = True          # once per stream (every later datagram repeats it)
+                    typ = [ty for (j, ty, p, f) in pre if j == q]
+                    run.oracle_violation("message-window-does-not-name-the-messages-received",
+                                         dict(base, message_index=q, newest_message_index=m, in_window=has, received_inside_window=expect,
+                                              message_type=typ[0] if typ else None), site)
+                    break
+        return acc
+
+    for start in starts:
+        for sender in ("client", "server"):
+            st = P4.Stream(run, rng, sender, start[0], start[1], "C08 message window")
+            ref = RefReassembly()
+            try:
+                held = []
+                block_until = -1
+                for step in range(70 if run.thorough() else 42):
+                    st.advance()
+                    if step > block_until and rng.random() < 0.2:
+                        block_until = step + rng.choice([6, 8, 12])     # acks lost for longer than the re-send interval
+                    if step == 2:
+                        block_until = 10                # every stream: a fragmented guaranteed message whose acks are lost
+                    st.back_block = step <= block_until
+                    r = rng.random()
+                    if step == 2:
+                        st.app_send(2500, -1)
+                    elif r < 0.25:
+                        st.app_send(rng.choice([1500, 2500, 3000]), rng.choice([1, -1, -1, 0]))     # fragmented
+                    elif r < 0.7:
+                        for _ in range(rng.randrange(1, 3)):
+                            st.app_send(rng.choice([9, 12, 40, 700]), rng.choice([0, 1, -1]))
+                    new = st.tick_sender()
+                    for idx in new:
+                        x = rng.random()
+                        if x < 0.15:
+                            held.append(idx)
+                            continue
+                        check(st, ref, idx, "first", step)
+                        if x > 0.85:
+                            check(st, ref, idx, "duplicate", step)
+                    if held and rng.random() < 0.3:
+                        check(st, ref, held.pop(rng.randrange(len(held))), "late", step)
+                    st.tick_receiver()
+                nsess += 1
+            finally:
+                st.finish()
+            run.count("message_copies_flagged", sum(1 for f in st.gm.flags if f))
+            run.count("fragment_messages_seen", sum(1 for ms in st.msg_of.values() for (_, ty, _) in ms if ty == 7))
+    run.count("conn_level_message_sessions", nsess)
+    if not run.dist.get("message_copies_flagged"):
+        raise RuntimeError("message-window streams without a single retransmitted message: generator broken")
     logging.disable(logging.NOTSET)
 
 
